@@ -301,7 +301,8 @@ class Ctx:
         self.log("proof obligations: %d theorems, accepted=%s" % (len(thms), ok))
         if ok and self.thorough() and not self.replay:
             # independent re-check of the compiled property file and everything it depends on
-            rc, out = sh("timeout 1500 coqchk -o -silent -Q . LJT LJT.props.%s" % self.prop, cwd=COQ)
+            with Lock("coq-" + self.prop):
+                rc, out = sh("timeout 1500 coqchk -o -silent -Q . LJT LJT.props.%s" % self.prop, cwd=COQ)
             tail = out[-3000:]
             self.cov["coqchk"] = {"rc": rc, "output_tail": tail}
             self.log("coqchk rc=%d" % rc)
